@@ -314,6 +314,8 @@ def body(led):
     check_bay_fext(led)
     check_bay_fext_stiffeners(led)
     check_solve(led)
+    from . import py_static
+    py_static.check_panel_static(led)
     from . import sparse_standin
     sparse_standin.check(led, ['solve'])
     from . import sparse_proof
